@@ -56,6 +56,11 @@ def is_smart(r):
 
 
 def excluded(r):
+    """mirror of CallPath.C16_excluded: nothing is excluded (the vptr_map constructor uses find() now)"""
+    return False
+
+
+def is_vmap_ctor(r):
     return r['shape'] == 'vmap' and r['name'] in VMAP_CTOR
 
 
@@ -223,7 +228,6 @@ def main():
     phase['build_harness'] = round(time.time() - t, 1); t = time.time()
     runs = []
     selftest = None
-    vmap = {}
     total_cmp = 0
     if not binp:
         ctx.broken.append('TSan harness does not build against %s: %s' % (vlib.REPO, blog[-400:]))
@@ -240,24 +244,16 @@ def main():
             plan = [(8, 30000, ctx.seed), (16, 12000, ctx.seed + 1000), (3, 60000, ctx.seed + 2000), (12, 20000, ctx.seed + 3000)]
         else:
             plan = [(8, 15000, ctx.seed)]
-        for (th, it, sd) in plan:
-            r = tsan_run(binp, 'main', th, it, sd)
+        # the vptr_map constructor on registered classes, alone (the route that used operator[]): a normal run
+        plan = [('main', th, it, sd) for (th, it, sd) in plan]
+        plan.append(('vmap-registered', 8, 60000 if (ctx.thorough or search) else 5000, ctx.seed))
+        for (mode, th, it, sd) in plan:
+            r = tsan_run(binp, mode, th, it, sd)
             runs.append(r)
             total_cmp += comparisons(r['result'])
             lib = [x for x in r['reports'] if in_library(x)]
             if lib and search:
                 break   # found what the search was for
-
-        # the vptr_map observation (evidence only; these routes are C16_excluded)
-        if not search:
-            vr = tsan_run(binp, 'vmap-registered', 8, 5000 if not ctx.thorough else 60000, ctx.seed, timeout=200)
-            # a real race on the hash table: it may corrupt the table and hang, hence the short timeout
-            vu = tsan_run(binp, 'vmap-unregistered', 8, 20, ctx.seed, timeout=30)
-            vmap = {'registered': {'result': vr['result'], 'tsan_reports': len(vr['reports'])},
-                    'unregistered': {'result': vu['result'] or ('no result (rc=%s: hung or crashed, the table was corrupted by the race)' % vu['rc']),
-                                     'tsan_reports': len(vu['reports']),
-                                     'first_report_head': trim_report(vu['reports'][0], 8) if vu['reports'] else ''}}
-
     phase['tsan'] = round(time.time() - t, 1)
 
     # ---- decide
@@ -302,11 +298,6 @@ def main():
                        'make_log_tail': getattr(ctx, 'make_log_tail', '')[-1200:]}, nofail=True)
         ctx.broken = []     # already reported (vlib.finish would print a second line)
 
-    # optional: the vptr_map observation as a KNOWN-FINDING once the lead records it
-    if vmap and vmap.get('unregistered', {}).get('tsan_reports', 0) and any(
-            f['kind'] == 'finding' and f['property'] == 'C16' and f['key'] == 'vptr-map-ctor-operator-index' for f in ctx.findings):
-        ctx.violation('vptr_map: virtual_ptr constructor uses unordered_map::operator[]', {}, finding_key='vptr-map-ctor-operator-index')
-
     # ---- evidence
     per = {}
     for r in routes:
@@ -321,9 +312,9 @@ def main():
         for r in routes:
             if (r['name'], r['shape'], r['variant']) == want:
                 samples.append({'route': r['name'], 'shape': r['shape'], 'variant': r['variant'],
-                                'excluded': excluded(r), 'accesses': [short(a)[-70:] for a in r['accesses']][:60]})
-    excl = [{'route': r['name'], 'variant': r['variant'],
-             'offending': sorted({short(a)[-90:] for a in offending(r)})[:8]} for r in routes if excluded(r) and r['variant'] == 'O2']
+                                'accesses': [short(a)[-70:] for a in r['accesses']][:60]})
+    vmap_ctor = [{'route': r['name'], 'variant': r['variant'], 'accesses': len(r['accesses']),
+                  'offending': sorted({short(a)[-90:] for a in offending(r)})[:8]} for r in routes if is_vmap_ctor(r)]
     cov = {
         'evaluations': total_cmp,
         'distinct_nontrivial': distinct,
@@ -338,11 +329,13 @@ def main():
         'tsan_runs': [{'cmd': r['cmd'], 'result': r['result'], 'reports': len(r['reports'])} for r in runs],
         'tsan_selftest': selftest,
         'phase_seconds': phase,
-        'vptr_map_ctor_observation': {
-            'routes_excluded_by_C16_excluded': excl,
-            'tsan_experiment': vmap,
-            'note': 'virtual_ptr(Other&&) evaluates Policy::vptrs[index]; with vptr_map that is unordered_map::operator[] '
-                    '(insert path in the IR: operator new, _M_need_rehash, stores to the map). Not a stock configuration.'},
+        'vptr_map_ctor_routes': {
+            'routes': vmap_ctor,
+            'note': 'virtual_ptr(Other&&) used Policy::vptrs[index], i.e. unordered_map::operator[] with vptr_map (insert path '
+                    'in the IR); since the library fix it calls Policy::dynamic_vptr (find()). No route is excluded '
+                    '(CallPath.C16_excluded = false); these routes pass route_read_only and run in every ThreadSanitizer run, '
+                    'plus alone on registered classes (mode vmap-registered; the map must keep its size). Constructing a '
+                    'virtual_ptr for a class that was never registered is a misuse and is not exercised.'},
         'explanation':
             'PROVED (Coq, closed under the global context): for any number of threads, any lengths and any interleaving, threads '
             'whose access kinds satisfy shared_read_only (or its caller-owned smart-pointer variant) do not race, leave the shared '
@@ -354,8 +347,7 @@ def main():
             'ThreadSanitizer runs (no report, every answer equal to the single-threaded table). TRUSTED: the translator (that the '
             'list covers what the compiled code does; provenance classes of pointers), what the whitelisted external functions do '
             '(__dynamic_cast, strcmp, type_info comparisons; operator new/delete on smart-pointer routes), the hardware memory '
-            'model, clang, and that distinct policies own disjoint locations (C14; hypothesis W). The vptr_map '
-            'virtual_ptr-constructor routes are excluded by the single definition CallPath.C16_excluded.',
+            'model, clang, and that distinct policies own disjoint locations (C14; hypothesis W). No route is excluded.',
     }
     if keep_broken and not ctx.broken:
         cov['broken'] = keep_broken
